@@ -253,6 +253,7 @@ def run(rep, tier, rng):
         rep.case(key, nontrivial, sample)
         rep.count(m["op"])
 
+    struct_problems = []
     # ---------------- (a) structural ---------------------------------------------------------------------
     for trial in range(25 if quick else 300):
         targets, actions, ndyn = gen_rules(rng)
@@ -265,7 +266,7 @@ def run(rep, tier, rng):
             continue
         wires, problems = extract_wiring(o[1], actions)
         for p in problems:
-            rep.violation(f"wiring: {p}", {"case": desc})
+            struct_problems.append((p, desc))
         at, dt, yt = effect_terms(targets, actions)
         add(f"check_wiring {SC} (1%Z, 1000000000%Z) {at} {c.lst(wires)}", dict(desc, op="wiring-vs-model", observed=wires),
             ("wiring", repr(targets), repr(actions)), nontrivial=len(actions) >= 2 and any(actions),
@@ -294,6 +295,9 @@ def run(rep, tier, rng):
                     sample=dict(base, target=t, observed=np.round(out, 2).tolist()) if phase == 1 and t == 0 else None)
 
     verdicts = c.coq_eval("C04", "cases", IMPORTS, exprs, shard=100)
+    routed_failed = any((not ok2) and m2["op"] != "wiring-vs-model" for ok2, m2 in zip(verdicts, meta)) or bool(rep.violations)
+    for p, desc in struct_problems:
+        rep.violation(f"wiring: {p}", {"case": desc, "correspondence": "harness.props.c04 wiring tie"}, found_input=routed_failed)
     for ok, m in zip(verdicts, meta):
         if ok:
             continue
@@ -301,7 +305,8 @@ def run(rep, tier, rng):
             rep.violation(f"the wiring built for actions {str(m['actions'])[:160]} differs from the model: observed {str(m['observed'])[:200]}",
                           {"case": {k: v for k, v in m.items() if k != "observed"}, "observed": m["observed"],
                            "python": "# rebuild with harness/props/c04.py build_block / extract_wiring\nassert False, 'action-selection wiring differs from the model'\n",
-                           "expected": "Model/Routing.v build"})
+                           "expected": "Model/Routing.v build", "correspondence": "harness.props.c04 wiring tie"},
+                          found_input=routed_failed)
         else:
             rep.violation(f"phase {m['phase']} winner {m['winner']}: target {m['target']} received {str(m['observed'])[:100]}, not the winner's effects "
                           f"(actions {str(m['actions'])[:120]})",
